@@ -6,6 +6,11 @@ COMMON_NOTE = ("Trusted: Lean 4.33 kernel; axioms limited to propext/Quot.sound/
                "lean/MoreExec/Props. Correspondence covers the explored schedules only; the universal claim is about the model.")
 
 PROPS = {
+    "C13": dict(
+        technique="Lean 4 proofs by exhaustive case analysis over a functional model of MapFuture/FlatMapFuture resolution (spec equality, call discipline, identity, composition) for arbitrary user functions; differential of the real MapExecutor/FlatMapExecutor/f_map/f_flat_map against the model over the full behaviour cross product under a deterministic scheduler",
+        level_text="Machine-checked theorems for every input outcome and every total behaviour of fn/error_fn: the resolution procedure equals the property's spec, fn and error_fn are each called at most once and only for their own case with the input's own value/exception, omitted functions are the identity and keep the exception object, map stages compose, flat_map of a non-future is TypeError. The hand-written model is tied to map.py/flat_map.py by running the real code on the full cross product of behaviours, forms and timings and comparing outcome identity and call arguments with the model's executable definition.",
+        design_ref="DESIGN.md section 6 C13, Appendix A.2",
+        level_note="Modelled, not verified: tracebacks; the _Future callback/cancel protocol underneath (C02); the model is hand-written (no regenerated kernel), so its tie is the differential over the enumerated behaviour domain."),
     "C15": dict(
         technique="Lean 4 proofs (induction over any completion order / permutation) that the zipper output holds input i's result at position i, first failure wins, f_traverse call discipline, over the decision kernel K6 regenerated from futures/zip.py; histories of the real f_zip/f_sequence/f_traverse replayed through the Lean model",
         level_text="Machine-checked theorems for every number of inputs and every completion order: positions are preserved, the first exception/cancellation observed decides the output and nothing later changes it, f_traverse calls fn once per element in order and stops at the first raise. K6 is regenerated from zip.py every run and differentially tested; real executions under random/PCT schedules supply the order of handle_done critical sections, which the Lean model runs and whose result is compared (by object identity) with the real output.",
